@@ -844,6 +844,31 @@ func fvReadOnly(fv *ssa.FreeVar) bool {
 	return true
 }
 
+// localType: the type of a source-level local variable of the function, by name.
+func (fr *Frame) localType(name string) types.Type {
+	for _, b := range fr.fn.Blocks {
+		for _, in := range b.Instrs {
+			switch x := in.(type) {
+			case *ssa.Alloc:
+				if x.Comment == name {
+					return x.Type().Underlying().(*types.Pointer).Elem()
+				}
+			case *ssa.Phi:
+				if x.Comment == name {
+					return x.Type()
+				}
+			case *ssa.DebugRef:
+				if id, ok := x.Expr.(*ast.Ident); ok && id.Name == name {
+					if v, isVar := x.Object().(*types.Var); isVar && !v.IsField() {
+						return v.Type()
+					}
+				}
+			}
+		}
+	}
+	return nil
+}
+
 func domDepth(b *ssa.BasicBlock) int {
 	d := 0
 	for x := b.Idom(); x != nil; x = x.Idom() {
